@@ -15,7 +15,9 @@ Fixpoint bytes_eqb (a b : bytes) : bool :=
 
 (* 0 agree (accept, same text) ; 1 agree (both reject) ; 2 agree (both panic)
    3 printed text differs ; 4 model rejects, implementation accepts ; 5 model accepts, implementation rejects
-   6 panic disagreement ; 7 model out of fuel *)
+   6 panic disagreement ; 7 model out of fuel ;
+   8 model rejects where the implementation panics (a number >= 2^64 in a type: the type model does not
+     separate the two; for decimal constants parse_dec does) *)
 Definition cmp (m : outcome bytes) (r : rust_res) : N :=
   match m, r with
   | Ok t, RPrinted t' => if bytes_eqb t t' then 0 else 3
@@ -24,6 +26,7 @@ Definition cmp (m : outcome bytes) (r : rust_res) : N :=
   | Err _, RPrinted _ => 4
   | Ok _, RReject => 5
   | OutOfFuel, _ => 7
+  | Err _, RPanic => 8
   | _, _ => 6
   end.
 
